@@ -604,19 +604,49 @@ func genCfg(r *rand.Rand) []uint64 {
 	return []uint64{eq, v0}
 }
 
+// corpusMotifs: the corpus histories, used as PREFIXES of a share of the random histories (a random cut of a random
+// corpus history is replayed first, then generation continues at random from the situation it reached): the corner
+// cases that were worth writing down are then also explored in their neighbourhood, not only replayed verbatim.
+var corpusMotifs []hist.H
+
 func runRandom(t *testing.T, w *hist.W, h int) {
 	r := hist.Rng(h)
 	synctest.Test(t, func(t *testing.T) {
 		cfg := genCfg(r)
+		var prefix [][]uint64
+		if len(corpusMotifs) > 0 && r.IntN(6) == 0 {
+			m := corpusMotifs[r.IntN(len(corpusMotifs))]
+			if len(m.Evs) > 0 {
+				cfg = append([]uint64{}, m.Cfg...)
+				prefix = m.Evs[:1+r.IntN(len(m.Evs))]
+			}
+		}
 		s := newSys(w, cfg)
+		cfg = s.cfg // padded to its two fields, as in runFixed
 		defer s.teardown()
 		s.prof = r.IntN(3)
 		w.Begin(fmt.Sprintf("r%d", h), cfg)
 		w.Count(fmt.Sprintf("cfg.eq%d", cfg[0]), 1)
 		w.Count(fmt.Sprintf("profile.%d", s.prof), 1)
+		var prev []uint64
+		for _, ev := range prefix {
+			ev = append([]uint64{}, ev...)
+			obs, ok := s.exec(ev)
+			if !ok {
+				break
+			}
+			s.count(ev, prev, obs)
+			w.Step(ev, obs)
+			prev = obs
+		}
+		if prefix != nil {
+			w.Count("random_with_corpus_prefix", 1)
+		}
 		steps := 10 + r.IntN(60)
 		maxActs := 4 + r.IntN(9)
-		var prev []uint64
+		if prefix != nil {
+			maxActs += len(s.c.Acts)
+		}
 		for k := 0; k < steps; k++ {
 			ev := s.gen(r, maxActs)
 			if ev == nil {
@@ -670,7 +700,8 @@ func TestCContainer(t *testing.T) {
 		}
 		return
 	}
-	for _, h := range hist.LoadCorpus(*hist.Corpus) {
+	corpusMotifs = hist.LoadCorpus(*hist.Corpus)
+	for _, h := range corpusMotifs {
 		runFixed(t, w, h.ID, h.Cfg, h.Evs)
 		w.Count("corpus", 1)
 	}
